@@ -107,6 +107,28 @@ def check_orbital_semantics(ctx):
             return "assignment accepted for generalized orbitals"
         obligation("R2", f"generalized orbitals: assigning `{name}` is refused", W(name, True), f)
 
+    # every *other* accessor of the class, present or future: on generalized orbitals it either raises
+    # NotImplementedError or is one of the combined quantities (nelec, norb); a new spin-resolved accessor without the
+    # guard shows here
+    COMBINED = {"nelec", "norb", "nbasis"}
+    for name in sorted(set(mo.getters) - COMBINED - {"occsa", "occsb", "coeffsa", "coeffsb", "energiesa", "energiesb", "irrepsa", "irrepsb", "spinpol"}):
+        def f(name=name):
+            try:
+                v = fresh().get(gen(), name)
+            except Raised as r_:
+                return None if r_.cls == "NotImplementedError" else f"raises {r_.cls}"
+            return f"returns {str(v)[:50]} for generalized orbitals (a spin-resolved or derived quantity must raise NotImplementedError; a combined one belongs in the reviewed list {sorted(COMBINED)})"
+        obligation("R2", f"generalized orbitals: accessor `{name}` (not in the reviewed lists) refuses", W(name), f)
+    for name in sorted(set(mo.setters) - {"occsa", "occsb"}):
+        def f(name=name):
+            r = gen()
+            try:
+                fresh().set(r, name, sym_array("x", (2,)))
+            except Raised as r_:
+                return None if r_.cls == "NotImplementedError" else f"raises {r_.cls}"
+            return "is accepted for generalized orbitals"
+        obligation("R2", f"generalized orbitals: assigning `{name}` (not in the reviewed lists) is refused", W(name, True), f)
+
     def f():
         r = gen()
         ev = fresh()
@@ -114,6 +136,13 @@ def check_orbital_semantics(ctx):
             return "nelec is not the sum of the occupations"
         if ev.get(r, "norb") != 4:
             return f"norb = {ev.get(r, 'norb')} for a 4-column coefficient matrix"
+        r2 = Rec(mo, kind="generalized", norba=None, norbb=None, occs=sym_array("o", (4,)), coeffs=sym_array("c", (6, 4)), energies=sym_array("e", (4,)), irreps=None, occs_aminusb=None)
+        if fresh().get(r2, "norb") != 4:
+            return f"norb = {fresh().get(r2, 'norb')} for a 6 x 4 coefficient matrix (four orbitals over six basis functions)"
+        if fresh().get(r2, "nbasis") != 3:
+            return f"nbasis = {fresh().get(r2, 'nbasis')} for generalized orbitals with a 6 x 4 coefficient matrix (two spin blocks of three spatial functions)"
+        if fresh().get(unres(), "nbasis") != 2 or fresh().get(res(), "nbasis") != 2:
+            return "nbasis is not the number of rows of the coefficient matrix for (un)restricted orbitals"
         return None
     obligation("R2", "generalized orbitals expose the combined quantities (nelec, norb)", W("nelec"), f)
 
@@ -188,16 +217,18 @@ def check_orbital_semantics(ctx):
     # ------------------------------------------------------------------ R4: setters
     for side, other in (("a", "b"), ("b", "a")):
         def f(side=side, other=other):
-            r = unres()
-            ev = fresh()
-            before_other = np.array(ev.get(r, "occs" + other), dtype=object).copy()
-            x = sym_array("x", (2,) if side == "a" else (1,))
-            ev.set(r, "occs" + side, x)
-            ev2 = fresh()
-            if not _eq(ev2.get(r, "occs" + side), x):
-                return f"unrestricted: occs{side} reads back as {str(ev2.get(r, 'occs' + side))[:60]}"
-            if not _eq(ev2.get(r, "occs" + other), before_other):
-                return f"unrestricted: assigning occs{side} changed occs{other}"
+            # every split of the orbitals, also with no orbitals of one spin (a slice from the end is wrong there)
+            for na, nb in [(2, 1), (1, 2), (2, 0), (0, 2), (1, 1), (3, 3)]:
+                r = unres(na, nb)
+                ev = fresh()
+                before_other = np.array(ev.get(r, "occs" + other), dtype=object).copy()
+                x = sym_array("x", (na if side == "a" else nb,))
+                ev.set(r, "occs" + side, x)
+                ev2 = fresh()
+                if not _eq(ev2.get(r, "occs" + side), x):
+                    return f"unrestricted (norba={na}, norbb={nb}): occs{side} reads back as {str(ev2.get(r, 'occs' + side))[:60]}"
+                if not _eq(ev2.get(r, "occs" + other), before_other):
+                    return f"unrestricted (norba={na}, norbb={nb}): assigning occs{side} changed occs{other}"
             return None
         obligation("R4", f"unrestricted: assigning occs{side} reads back as assigned and leaves occs{other} unchanged", W("occs" + side, True), f)
 
